@@ -8,8 +8,12 @@ CONSTANTS
   MaxReq = 8
   MaxBatch = 2
   Hist = TRUE
+  Reps = {1, 2}
+  CountHist = TRUE
+  GenBug = FALSE
+  GenMod = 256
   Deliveries = {"single", "pipelined", "fragmented"}
   SplitReg = TRUE
-INVARIANTS TypeOK Partition NextRequest
+INVARIANTS TypeOK Partition NextRequest CountsLog
 PROPERTIES P_C20 P_LiveReleased P_LiveRequest P_LiveOutside P_LivePark
 CHECK_DEADLOCK FALSE
